@@ -15,7 +15,7 @@ With merge=False every history is its own state (used where the property *is* "h
 from . import runner
 
 
-def search(expand, cfg, max_depth, init_hist=(), init_key='<init>', merge=True, max_states=None, chunk=None):
+def search(expand, cfg, max_depth, init_hist=(), init_key='<init>', merge=True, max_states=None, chunk=None, inline_below=6):
     seen = {init_key}
     frontier = [tuple(init_hist)]
     total = {'transitions': 0}
@@ -36,7 +36,7 @@ def search(expand, cfg, max_depth, init_hist=(), init_key='<init>', merge=True, 
             return out
 
         nxt = {}
-        for part in runner.pmap(work, frontier, cfg, chunk=chunk, inline_below=6):
+        for part in runner.pmap(work, frontier, cfg, chunk=chunk, inline_below=inline_below):
             succ = part.pop('succ')
             runner.merge_counts(total, part)
             for h, key in succ:
